@@ -143,20 +143,29 @@ class ReachingDefs:
         self.defs[cfg.ENTRY] = [Def(cfg.ENTRY, p, "param", None, None) for p in params]
         self.IN: Dict[int, Set[Def]] = {nid: set() for nid in cfg.nodes}
         self.OUT: Dict[int, Set[Def]] = {nid: set() for nid in cfg.nodes}
+        # along an exceptional edge the statement raised before its binding took effect: what leaves is what came in (plus its
+        # in-place effects, which may have happened in part)
+        self.XOUT: Dict[int, Set[Def]] = {nid: set() for nid in cfg.nodes}
         work = list(cfg.nodes)
         while work:
             nid = work.pop(0)
             ins = set()
             for p in cfg.g.predecessors(nid):
-                ins |= self.OUT[p]
+                ins |= self.XOUT[p] if cfg.g[p][nid].get("kind") == "x" else self.OUT[p]
             self.IN[nid] = ins
             out = set(ins)
+            xout = set(ins)
             for d in self.defs[nid]:
                 if d.strong:
                     out = {x for x in out if x.name != d.name}
+                else:
+                    xout.add(d)
                 out.add(d)
-            if out != self.OUT[nid]:
+            if nid == cfg.ENTRY:
+                xout = set(out)
+            if out != self.OUT[nid] or xout != self.XOUT[nid]:
                 self.OUT[nid] = out
+                self.XOUT[nid] = xout
                 for s in cfg.g.successors(nid):
                     if s not in work:
                         work.append(s)
